@@ -75,9 +75,14 @@ def _members_safe(members):
             return False
         for s in (m['name'], m.get('target', '')):
             if s.startswith('/'):
-                return False            # absolute paths must be written with the $P placeholder
+                return False            # absolute paths must be written with the $P / $T placeholders
             if '$P' in s and not s.startswith('$P/'):
                 return False
+        # $T (the top of the sandbox, shallow) only as the name of a regular or directory member without '..':
+        # nothing is ever resolved from there, and no link can be created there
+        if '$T' in m.get('target', '') or ('$T' in m['name'] and not (
+                m['k'] in ('reg', 'dir') and m['name'].startswith('$T/ABS/') and '..' not in m['name'])):
+            return False
     return True
 
 
@@ -89,7 +94,8 @@ T_PLAIN = ['f.txt', 'a', 'a/f.txt', '.', 'l', 'k', 'nowhere', 'pre/old.txt', 'g.
 T_DD = ['../f.txt', '../sentinel.txt', '../outdir', '../../outdir', 'a/../..', 'sub/../f.txt', '../install/f.txt',
         '../outdir/keep.txt', 'a/../../sentinel.txt', '../nonexist', '../../nonexist', 'nowhere/..', '..']
 T_ABS = ['$P/outdir', '$P/sentinel.txt', '$P/install/f.txt', '$P/install', '$P/outdir/keep.txt']
-N_ABS = ['$P/abs/x.txt', '$P/sentinel.txt', '$P/install/f.txt', '$P/outdir/new.txt', '$P/newabs/y.txt']
+N_ABS = ['$P/abs/x.txt', '$P/sentinel.txt', '$P/install/f.txt', '$P/outdir/new.txt', '$P/newabs/y.txt']   # deep: costly in Coq
+N_ABS_SHALLOW = ['$T/ABS/x.txt', '$T/ABS/sub/y.txt', '$T/ABS/f.txt']
 MODES = [0o644, 0o444, 0o600, 0o755, 0o400, 0o000, 0o666, 0o4755]
 
 
@@ -190,6 +196,8 @@ def _hostile(rng):
 def _abs_member(rng):
     """absolute member names are kept rare: the 'data' filter re-roots them below the install directory, which
     creates a tree as deep as the sandbox and makes the case expensive to evaluate inside Coq"""
+    if rng.random() < 0.85:
+        return rng.choice([_reg(rng, rng.choice(N_ABS_SHALLOW)), _dir(rng, rng.choice(N_ABS_SHALLOW)[:-4])])
     return rng.choice([_reg(rng, rng.choice(N_ABS)), _dir(rng, rng.choice(N_ABS)[:-4]), _hard(rng.choice(N_ABS), 'f.txt'),
                        _sym(rng.choice(N_ABS), _target(rng))])
 
@@ -294,7 +302,7 @@ def gen_cases(rng, tier):
     n = 320 if tier == 'quick' else 2000
     cases = []
     # absolute member names: a fixed, small number (see _abs_member)
-    for _ in range(3 if tier == 'quick' else 12):
+    for _ in range(6 if tier == 'quick' else 30):
         ms = [_abs_member(rng)]
         if rng.random() < 0.5:
             ms.insert(rng.randint(0, 1), _reg(rng, 'f.txt'))
@@ -355,10 +363,10 @@ def _build_tree(P, pre):
                     groups[g] = p
 
 
-def _build_archive(path, members, P, gz):
+def _build_archive(path, members, P, top, gz):
     with tarfile.open(path, 'w:gz' if gz else 'w') as t:
         for m in members:
-            ti = tarfile.TarInfo(m['name'].replace('$P', P))
+            ti = tarfile.TarInfo(m['name'].replace('$P', P).replace('$T', top))
             ti.mtime = 1600000000
             if m['k'] == 'reg':
                 data = m['data'].encode()
@@ -404,7 +412,7 @@ def run_impl(case, ctx):
     try:
         _build_tree(P, case['pre'])
         archive = os.path.join(os.path.realpath(ctx['tmp']), 'archive.tar' + ('.gz' if case['gz'] else ''))
-        _build_archive(archive, case['members'], P, case['gz'])
+        _build_archive(archive, case['members'], P, top, case['gz'])
         before = _snapshot(top)
         lib = []
         with tarfile.open(archive, 'r:*') as t:
@@ -450,15 +458,15 @@ def run_impl(case, ctx):
 
     def under_p(snap):
         return {os.path.relpath(k, prel): v for k, v in snap.items() if k.startswith(prel + os.sep)}
-    return {'outcome': _classify_exc(exc), 'exc': None if exc is None else f'{type(exc).__name__}: {exc}'.replace(P, '$P')[:300],
+    return {'outcome': _classify_exc(exc), 'exc': None if exc is None else f'{type(exc).__name__}: {exc}'.replace(P, '$P').replace(top, '$T')[:300],
             'pre': under_p(before), 'final': under_p(after), 'outside_changed': [c.replace(prel, '$P') for c in changed],
-            'chain_ok': chain_ok, 'lib': lib, 'P': [c for c in P.split('/') if c]}
+            'chain_ok': chain_ok, 'lib': lib, 'P': [c for c in P.split('/') if c], 'top': top}
 
 
 # ---------------------------------------------------------------------------------------- oracle
 def _plain_rel(name):
     comps = [c for c in name.split('/') if c not in ('', '.')]
-    return None if (name.startswith('/') or '$P' in name or '..' in comps) else comps
+    return None if (name.startswith('/') or '$P' in name or '$T' in name or '..' in comps) else comps
 
 
 def _benign_expectation(case, obs):
@@ -544,7 +552,7 @@ def encode(case, obs):
     P = '/' + '/'.join(obs['P'])
     ms = []
     for m in case['members']:
-        nm = kv.cstr(m['name'].replace('$P', P))
+        nm = kv.cstr(m['name'].replace('$P', P).replace('$T', obs['top']))
         if m['k'] == 'reg':
             ms.append(f'(MReg {nm} {kv.cstr(m["data"])})')
         elif m['k'] == 'dir':
